@@ -4,6 +4,7 @@
 package serviceinfo
 
 //@ func serviceinfo.ChunkReader.ReadChunk
+//@   params r size
 //@   props C15
 //@   sweep bounds,make,nilmem,panic,nooverflow
 //@   makelimit 65535
@@ -19,6 +20,7 @@ package serviceinfo
 //@   ensures @keepreader u(err) == u(ErrSizeTooSmall) ==> r.r != nil
 
 //@ func serviceinfo.cborEncodedLen
+//@   params b
 //@   props C15
 //@   sweep panic
 //@   pure
@@ -26,6 +28,7 @@ package serviceinfo
 //@   ensures int(result) == (hdr(len(b)) + len(b)) % 65536
 
 //@ func serviceinfo.KV.Size
+//@   params kv
 //@   props C15
 //@   sweep nooverflow,panic
 //@   pure
@@ -35,11 +38,12 @@ package serviceinfo
 // devmod module list chunking (C16): every chunk written carries Len names and
 // starts at the number of names written before it; together they cover the list.
 //@ func serviceinfo.Devmod.writeModuleMessages
+//@   params d modules mtu w
 //@   props C16 C10(sweep)
 //@   sweep bounds,panic,make,nilmem,div
 //@   invariant loop#1: chunk.Len == len(chunk.Modules) && chunk.Start + chunk.Len + len(modules) == len(arg1) && chunk.Start >= 0 && chunk.Len >= 0 && len(modules) >= 0
 //@   callassert writeModuleMessages$1#2: @chunk arg0.Len == len(arg0.Modules) && arg0.Len > 0 && arg0.Start + arg0.Len + len(modules) == len(arg1)
 //@   callassert writeModuleMessages$1#1: @last arg0.Len == len(arg0.Modules) && arg0.Start + arg0.Len == len(arg1)
-//@   callassert Encode#1: @count u(unwrap(arg1)) == u(len(modules))
+//@   callassert Encode#2: @count u(unwrap(arg1)) == u(len(modules))
 //@   callsites ForceNewMessage 1
 //@   callassert ForceNewMessage#1: @beforechunks u(arg0) == u(w)
